@@ -24,17 +24,32 @@ def make_world(seed, mode, n_groups):
     truth = {}
     files = None
     longest = max(w.chrom_order, key=w.chrom_len)
+    group_of_name = {}
+    ungroupable_names = set()
+    n_records = {}
+    for r in w.reads:
+        n_records[r.name] = n_records.get(r.name, 0) + 1
     for i, r in enumerate(w.reads):
         if r.flag & 4:
             continue
         g = groups[rng.randrange(n_groups)]
+        if r.name in group_of_name:
+            # all records of one read (multi-mapped reads of the zoo) carry one tag / sit in one file / have one table row
+            g = group_of_name[r.name]
         # a group absent from some chromosome
         if r.chrom == "chr3" and g == groups[0]:
             g = groups[1 % n_groups]
         # ... and a group that occurs on the longest sequence (collected first) only
         if n_groups >= 3 and g == groups[-1] and r.chrom != longest:
             g = groups[1]
+        group_of_name.setdefault(r.name, g)
+        g = group_of_name[r.name]
         ungroupable = rng.random() < 0.06
+        if r.name in ungroupable_names or (ungroupable and n_records[r.name] == 1):
+            ungroupable_names.add(r.name)
+            ungroupable = True
+        else:
+            ungroupable = False
         if mode == "tag":
             r.tags = [] if ungroupable else [("CB", g)]
             truth[r.name] = "NA" if ungroupable else g
